@@ -26,6 +26,9 @@ macro_rules! dispatch {
             "C13" => $f::<c13::C13>($($arg),*),
             "C14" => $f::<c14::C14>($($arg),*),
             "C15" => $f::<c15::C15>($($arg),*),
+            "C16" => $f::<c16::C16>($($arg),*),
+            "C17" => $f::<c16::C17>($($arg),*),
+            "C18" => $f::<c16::C18>($($arg),*),
             "C19" => $f::<c19::C19>($($arg),*),
             other => {
                 eprintln!("unknown property {other}");
@@ -46,6 +49,7 @@ fn main() {
     if cmd == "probe" {
         let code = match id {
             "sample" => c13::probe_sample(args.get(3).map(|s| s.as_str()).unwrap_or("")),
+            "simdump" => c16::simdump(args.get(3).map(|s| s.as_str()).unwrap_or("")),
             _ => 2,
         };
         std::process::exit(code);
